@@ -639,6 +639,10 @@ class Index:
         if isinstance(expr, ast.Attribute):
             base = self.infer(expr.value, scope)
             return self.attr_type(base, expr.attr)
+        if isinstance(expr, ast.Call) and self._is_typing_cast(expr, scope):
+            # typing.cast(T, x): the type is T (when it names one), the value is x
+            t = self.ann_to_type(expr.args[0], scope.module)
+            return t if t is not None else self.infer(expr.args[1], scope)
         if isinstance(expr, ast.Call):
             return self.call_type(expr, scope)
         if isinstance(expr, ast.IfExp):
@@ -694,6 +698,18 @@ class Index:
             f = scope.find_lambda(expr)
             return ("func", f) if f else None
         return None
+
+    def _is_typing_cast(self, call: ast.Call, scope) -> bool:
+        if len(call.args) != 2 or call.keywords:
+            return False
+        f = call.func
+        if isinstance(f, ast.Name) and f.id == "cast":
+            ent = self.resolve_name("cast", scope.module)
+            return ent is not None and ent[0] == "external" and ent[1] in ("typing.cast", "typing_extensions.cast")
+        if isinstance(f, ast.Attribute) and f.attr == "cast" and isinstance(f.value, ast.Name):
+            ent = self.resolve_name(f.value.id, scope.module)
+            return ent is not None and ent[0] == "external" and ent[1] in ("typing", "typing_extensions")
+        return False
 
     def attr_type(self, base, attr: str):
         if base is None:
